@@ -536,7 +536,66 @@ def sc_reduce_over_stack(n, s, c, k, **_):
     return r, (0, c), 0
 
 
+def _kf_user(out_name, fn):
+    """a user-supplied key function (as passed to general_blockwise)"""
+    from cubed.primitive.blockwise import ChunkKey, FunctionArgs
+
+    def kf(out_key):
+        return FunctionArgs(*fn(ChunkKey, out_key.coords), output_name=out_key.name)
+
+    return kf
+
+
+def sc_list_mixed_sources(n, c, **_):
+    """f([p_c, q_c]) : ONE list argument mixing blocks of two differently derived arrays (concatenating source, list form)"""
+    p = _box(["p"], kf_elemwise("p", ["a"], [(n,)], 1), ufunc("g"), ["a"])
+    q = _box(["q"], kf_elemwise("q", ["b"], [(n,)], 1), ufunc("h"), ["b"])
+    r = _box(["r"], _kf_user("r", lambda CK, co: ([CK("p", co), CK("q", co)],)), ufunc("f"), ["p", "q"], [p, q])
+    sx.assume(c < n)
+    return r, (c,), 0
+
+
+def sc_list_mixed_passthrough(n, c, **_):
+    """f([a_c, q_c]) : list mixing a raw (unfused) input with a fused predecessor's block, in both orders"""
+    q = _box(["q"], kf_elemwise("q", ["b"], [(n,)], 1), ufunc("h"), ["b"])
+    r = _box(["r"], _kf_user("r", lambda CK, co: ([CK("a", co), CK("q", co)], [CK("q", co), CK("a", co)])), ufunc("f"), ["a", "q"], [q])
+    sx.assume(c < n)
+    return r, (c,), 0
+
+
+def sc_list_same_source(n, c, **_):
+    """f([p_2c, p_2c+1]) : list of two blocks of one predecessor array (2n blocks)"""
+    p = _box(["p"], kf_elemwise("p", ["a", "b"], [(2 * n,), (2 * n,)], 1), ufunc("g"), ["a", "b"])
+    r = _box(["r"], _kf_user("r", lambda CK, co: ([CK("p", (2 * co[0],)), CK("p", (2 * co[0] + 1,))],)), ufunc("f"), ["p"], [p])
+    sx.assume(c < n)
+    return r, (c,), 0
+
+
+def sc_iter_mixed_sources(n, c, **_):
+    """f(iter([p_c, q_c, p_c+1?])) : stream mixing sources (concat-like)"""
+    p = _box(["p"], kf_elemwise("p", ["a"], [(n,)], 1), ufunc("g"), ["a"])
+    q = _box(["q"], kf_elemwise("q", ["b"], [(n,)], 1), ufunc("h"), ["b"])
+    r = _box(["r"], _kf_user("r", lambda CK, co: (iter([CK("p", co), CK("q", co), CK("p", (0,))]),)), ufunc("f"), ["p", "q"], [p, q])
+    sx.assume(c < n)
+    return r, (c,), 0
+
+
+def sc_nested_list_over_list(n, c, **_):
+    """depth 3: f([r1_c, q_c]) where r1 = g([p_c, a_c]) itself takes a mixed list"""
+    p = _box(["p"], kf_elemwise("p", ["a"], [(n,)], 1), ufunc("g"), ["a"])
+    q = _box(["q"], kf_elemwise("q", ["b"], [(n,)], 1), ufunc("h"), ["b"])
+    r1 = _box(["r1"], _kf_user("r1", lambda CK, co: ([CK("p", co), CK("w", co)],)), ufunc("m"), ["p", "w"], [p])
+    r = _box(["r"], _kf_user("r", lambda CK, co: ([CK("r1", co), CK("q", co)],)), ufunc("f"), ["r1", "q"], [r1, q])
+    sx.assume(c < n)
+    return r, (c,), 0
+
+
 SCENARIOS = {
+    "list-mixed-sources>elems": (sc_list_mixed_sources, ["n", "c"]),
+    "list-mixed-with-passthrough": (sc_list_mixed_passthrough, ["n", "c"]),
+    "list-same-source>elem": (sc_list_same_source, ["n", "c"]),
+    "iter-mixed-sources>elems": (sc_iter_mixed_sources, ["n", "c"]),
+    "list>list-mixed(d3)": (sc_nested_list_over_list, ["n", "c"]),
     "elem>elem": (sc_elem_over_elem, ["n", "c"]),
     "repeated-arg": (sc_repeated_arg, ["n", "c"]),
     "broadcast-2d": (sc_broadcast_2d, ["n", "m", "c", "c2"]),
